@@ -164,12 +164,18 @@ func genC15(cfg Config, ws *WorldSet, i, perWorld int) C15Case {
 				present()
 			}
 			sig := sim.Pick(r, []string{"sigint", "sigint", "sigterm", "sighup"})
-			switch r.Intn(3) {
+			switch r.Intn(6) {
 			case 0:
 				plan.Faults = append(plan.Faults, sim.Fault{Op: "Stat", Path: setup, Nth: 1, Kind: sig})
 			case 1:
 				plan.Faults = append(plan.Faults, sim.Fault{Op: "Stat", Path: setup, Nth: 2, Kind: sig})
 			case 2:
+				plan.Faults = append(plan.Faults, sim.Fault{Op: "Stat", Path: iv.OutPath, Nth: 1, Kind: sig})
+			case 3:
+				// when the log is opened (only with -log), else when the output is
+				plan.Faults = append(plan.Faults, sim.Fault{Op: "OpenFile", Path: logPathFor(iv.OutPath), Nth: 1, Kind: sig},
+					sim.Fault{Op: "OUTPUT-OPEN", Path: iv.OutPath, Kind: sig})
+			default:
 				plan.Faults = append(plan.Faults, sim.Fault{Op: "OUTPUT-OPEN", Path: iv.OutPath, Kind: sig})
 			}
 		case "stat-src-error":
